@@ -533,6 +533,13 @@ def main() -> int:
         print(text)
     if not p.exists() or p.read_text() != text:
         p.write_text(text)
+    text, problems = py2lean_layout.translate_rules(Path(args.repo))
+    all_problems += problems
+    p = outdir / "Rules.lean"
+    if args.print:
+        print(text)
+    if not p.exists() or p.read_text() != text:
+        p.write_text(text)
     text, problems = py2lean_layout.translate_namespace(Path(args.repo))
     all_problems += problems
     p = outdir / "Namespace.lean"
